@@ -3,7 +3,7 @@ import ast
 
 from ..astx import (calls_in, dotted, norm, src, iter_nodes, assigned_targets, assigned_names,
                     const_value, is_const, parent_chain)
-from ..lib import (cfg_nodes_with_call, node_calls, returns, raises, raised_class, stmt_assigns_attr, callee_last,
+from ..lib import (is_bytes_mode_text_guard, cfg_nodes_with_call, node_calls, returns, raises, raised_class, stmt_assigns_attr, callee_last,
                    is_name, node_roots, guard_region, compare_parts, find_test_nodes)
 from ..linear import ctext
 from ..loader import AnalysisError
@@ -53,8 +53,9 @@ def run(R):
         last = [r for r in rets if is_name(r.ast.value, rp)]
         c.check(len(last) == 1, f, last[0].ast if last else None, 'a pattern already of the right type is returned unchanged', kind='ast', tag='passthrough')
         tests = sorted([t for t in g.nodes if t.kind == 'test'], key=lambda t: t.id)
-        ok = len(tests) == 2 and 'self.encoding is None' in norm(tests[0].ast) and 'not isinstance' in norm(tests[0].ast) and \
-            'self.encoding is not None' in norm(tests[1].ast) and 'isinstance' in norm(tests[1].ast) and 'not isinstance' not in norm(tests[1].ast)
+        pvn = [n2.targets[0].id for n2 in iter_nodes(f.node) if isinstance(n2, ast.Assign) and isinstance(n2.targets[0], ast.Name) and norm(n2.value) == '%s.pattern' % rp]
+        pv_ = pvn[0] if pvn else 'p'
+        ok = len(tests) == 2 and is_bytes_mode_text_guard(tests[0].ast, pv_, True) and is_bytes_mode_text_guard(tests[1].ast, pv_, False)
         c.check(ok, f, tests[0].ast if tests else None, 'str pattern + bytes mode -> bytes pattern; bytes pattern + text mode -> str pattern', kind='ast', tag='directions')
     with R.clause('D4', 'ORDER', floor=6, desc='validation completes before the Expecter exists; validators never touch the stream') as c:
         check_order(c, repo)
@@ -66,7 +67,7 @@ def run(R):
         c.check(ok, f, ks[0] if ks else None, "text is converted with the 'ascii' codec (non-ASCII text for a bytes child is an error, not silently re-encoded)",
                 witness=norm(ks[0]) if ks else '', kind='ast', tag='ascii')
         t = [x for x in g.nodes if x.kind == 'test']
-        okt = len(t) == 1 and 'self.encoding is None' in norm(t[0].ast) and 'not isinstance(%s, bytes)' % f.params[1] in norm(t[0].ast)
+        okt = len(t) == 1 and is_bytes_mode_text_guard(t[0].ast, f.params[1], True)
         rr = [r for r in returns(f) if is_name(r.ast.value, f.params[1])]
         c.check(okt and len(rr) == 1, f, t[0].ast if t else None, 'only non-bytes given to a bytes-mode object are converted', kind='ast', tag='guard')
         f = repo.func('spawnbase:SpawnBase.read')
@@ -166,7 +167,9 @@ def check_exact(c, repo):
                  and callee_last(p.ast.value) == '_pattern_type_err']
     c.check(not falls and len(lastcalls) == 1, h, None, 'anything else ends in the TypeError helper (the helper never falls off the end)', kind='path', tag='exact-else')
     # single-pattern wrap and iterability
-    tw = [t for t in g.nodes if t.kind == 'test' and 'isinstance(%s, self.allowed_string_types)' % pl in norm(t.ast) and 'in (TIMEOUT, EOF)' in norm(t.ast)]
+    tw = [t for t in g.nodes if t.kind == 'test' and isinstance(t.ast, ast.BoolOp) and isinstance(t.ast.op, ast.Or) and
+          sorted(norm(v) for v in t.ast.values) in (sorted(['isinstance(%s, self.allowed_string_types)' % pl, '%s in (TIMEOUT, EOF)' % pl]),
+                                                   sorted(['isinstance(%s, self.allowed_string_types)' % pl, '%s in (EOF, TIMEOUT)' % pl]))]
     w = [n for t in tw for n in guard_region(g, t, 'true') if n.kind == 'stmt' and isinstance(n.ast, ast.Assign) and norm(n.ast.value) == '[%s]' % pl]
     c.check(len(tw) == 1 and len(w) == 1, f, tw[0].ast if tw else None, 'a single string or marker is wrapped in a one-element list', kind='path', tag='exact-wrap')
     trs = [t for t in iter_nodes(f.node) if isinstance(t, ast.Try)]
@@ -243,6 +246,8 @@ MUTANTS = [
     ('exact-helper-falls', 'spawnbase', "                return self._coerce_expect_string(pattern)\n            self._pattern_type_err(pattern)", "                return self._coerce_expect_string(pattern)\n            return pattern", 'D1'),
     ('coerce-string-utf8', 'spawnbase', "            return s.encode('ascii')", "            return s.encode('utf-8')", 'D5'),
     ('read-no-dotall', 'spawnbase', "cre = re.compile(self._coerce_expect_string('.{%d}' % size), re.DOTALL)", "cre = re.compile(self._coerce_expect_string('.{%d}' % size))", 'D5'),
+    ('coerce-string-or', 'spawnbase', "    def _coerce_expect_string(self, s):\n        if self.encoding is None and not isinstance(s, bytes):", "    def _coerce_expect_string(self, s):\n        if self.encoding is None or not isinstance(s, bytes):", 'D5'),
+    ('exact-wrap-and', 'spawnbase', "        if (isinstance(pattern_list, self.allowed_string_types) or\n                pattern_list in (TIMEOUT, EOF)):", "        if (isinstance(pattern_list, self.allowed_string_types) and\n                pattern_list in (TIMEOUT, EOF)):", 'D1'),
     ('cpl-none-raises', 'spawnbase', "        if patterns is None:\n            return []\n", "", 'D1'),
 ]
 PRESERVING = []
